@@ -62,7 +62,7 @@ def gen_plan(rng, prof):
                 codes.append(rng.choice([0, 0, 2]))
                 if codes[-1] != 0 and rng.random() < 0.5:
                     codes.append(0)
-        if any(d["how"].startswith("meta") for d in deps):
+        if any(d["how"].startswith(("meta", "self_")) for d in deps):
             cls[j] += "M"  # the variant of the class that has Meta parameters for other jobs
         jobs.append({"x": j, "cls": cls[j], "deps": deps, "tokens": jt, "codes": codes})
 
